@@ -592,7 +592,7 @@ def _append_only(ck, w):
         if rules.is_derive_body(b):
             continue
         st = b.self_ty or ""
-        for field, owner, ok_reset in (("finished", "backup::FileCombiner", {"backup::FileCombiner::drain"}),
+        for field, owner, ok_reset in (("finished", "backup::FileCombiner", {"backup::FileCombiner::drain", "backup::BackupWriter::flush_group"}),
                                        ("entries", "index::write::IndexWriter", {"index::write::IndexWriter::finish_hunk"})):
             if owner not in st:
                 continue
